@@ -441,6 +441,14 @@ def check_from_components(ctx, co, b):
     cfg = CFG(b)
     tr = Tracer(b)
     fmt = [bb for bb, t in b.calls() if t["call"]["name"] in ("parse", "from_str") and any(ty_adt(x) == RID for x in t["call"]["substs"])]
+    if not fmt:
+        # ... or one call of a crate-private constructor function of the type taking the built string (its construction site is
+        # guarded by the regular expression: R16.1)
+        fmt = [bb for bb, t in b.calls() if t["call"].get("local") and co.body(t["call"].get("id")) is not None and co.body(t["call"]["id"]).d.get("vis") != "pub"
+               and ty_adt(b.local_ty(place_local(t["dest"]))) == "core::result::Result" and ty_adt((b.local_ty(place_local(t["dest"])).get("args") or [{}])[0]) == RID]
+    if not fmt:
+        # ... which may have been spliced in: then the (single, R16.1-guarded) construction of the value itself
+        fmt = sorted({bb for bb, j, s_ in b.stmts() if s_["r"].get("agg") == "adt" and s_["r"]["adt"] == RID})
     if len(fmt) != 1:
         ctx.violation("R16.3", b.loc(), "from_components|parse", "from_components must end in exactly one parse of the formatted string")
         return
